@@ -40,7 +40,27 @@ ASSUMPTIONS = [
 def check_graph(ctx, spec, kind, max_queries=None, triples=None, tag="E",
                 sample=False):
   """kind: 'exact' | 'cond' | 'any'."""
-  p, nodes, vars_, binds = tg.build(spec)
+  def probe(p_, nodes_, vars__, binds_):
+    # The graph as it stands before the late origins arrive is a graph of the
+    # domain too: decide every query on it (same Program object that is
+    # extended and queried again below).
+    base = {k: v for k, v in spec.items() if k != "late"}
+    bref = tg.Reference(base)
+    for node in range(spec["n"]):
+      for S in tg.subsets_upto(range(len(binds_)), 2):
+        got = nodes_[node].HasCombination([binds_[i] for i in S])
+        want = bref.explain(node, frozenset(S))
+        ctx.case(key=("P", tg_key(spec), node, S), nontrivial=len(S) >= 2,
+                 classes=[tag + ":before-late-origin"])
+        ctx.check(got == want, "solver-%s" % (
+            "accepts-unexplained" if got else "rejects-explained"),
+                  "before the late origin: HasCombination(%s) at n%d = %s, "
+                  "reference %s" % (list(S), node, got, want),
+                  {"spec": base, "node": node, "subset": list(S),
+                   "kind": kind})
+
+  p, nodes, vars_, binds = tg.build(
+      spec, before_late=probe if kind == "exact" else None)
   nb = len(binds)
   ref = tg.Reference(spec, strict_conds=(kind == "cond"))
   multi = [len(o) >= 2 or any(len(ss) >= 2 for _, ss in o)
@@ -157,13 +177,15 @@ def fmt_spec(spec):
   c = (" conds=%s" % spec["conds"]) if spec.get("conds") else ""
   if spec.get("late"):
     c += " late-origins=%s" % spec["late"]
+    if spec.get("late_api"):
+      c += " via " + spec["late_api"]
   return "nodes=%d edges=[%s] %s%s" % (spec["n"], e, b, c)
 
 
 def tg_key(spec):
   return repr((spec["n"], spec["edges"], spec["bindings"],
                sorted((spec.get("conds") or {}).items()),
-               spec.get("late")))
+               spec.get("late"), spec.get("late_api")))
 
 
 # ------------------------------------------------------------ exhaustive
@@ -230,12 +252,35 @@ def enum_specs_late(n, nb, nv, max_origins, max_ss_size, max_ssets):
           yield s2
 
 
+def enum_specs_late_same(n, nb, nv, max_origins, max_ss_size, max_ssets):
+  """Each base spec extended by ONE further source set (over earlier or later
+  bindings) at a node where the binding ALREADY has an origin: the history
+  'build, query, store the same value again from other sources, query'."""
+  for spec in enum_specs(n, nb, nv, max_origins, max_ss_size, max_ssets):
+    k = len(spec["bindings"])
+    sets = [()]
+    for r in (1, 2):
+      sets += list(itertools.combinations(range(k), r))
+    for b in range(k):
+      for w, ssets in spec["bindings"][b][1]:
+        for ss in sets:
+          if (b in ss or list(ss) in ssets or
+              not tg.sources_acyclic_with(spec, b, ss)):
+            continue
+          for api in ("AddOrigin", "AddBinding"):
+            s2 = dict(spec)
+            s2["late"] = [[b, w, list(ss)]]
+            s2["late_api"] = api
+            yield s2
+
+
 def exhaustive(ctx, families, cap):
   i = 0
   complete = True
   for fam in families:
-    late = fam[0] == "late"
-    gen = enum_specs_late(*fam[1:]) if late else enum_specs(*fam)
+    late = fam[0] in ("late", "late-same")
+    gen = (enum_specs_late_same(*fam[1:]) if fam[0] == "late-same" else
+           enum_specs_late(*fam[1:]) if late else enum_specs(*fam))
     for spec in gen:
       i += 1
       if cap is not None and i > cap:
@@ -337,8 +382,9 @@ def random_search(ctx, n_examples):
 FAM_QUICK = [(1, 2, 2, 1, 1, 2), (2, 2, 2, 2, 1, 2), (3, 2, 2, 2, 1, 2),
              (2, 3, 2, 1, 2, 1), (3, 3, 2, 1, 2, 1), (4, 2, 2, 1, 1, 2),
              ("late", 1, 3, 2, 1, 1, 2), ("late", 2, 2, 2, 1, 1, 2),
-             ("late", 2, 3, 2, 1, 1, 1)]
-FAM_THOROUGH = FAM_QUICK + [(3, 3, 2, 2, 1, 1), (4, 3, 2, 1, 2, 1),
+             ("late", 2, 3, 2, 1, 1, 1), ("late-same", 2, 3, 2, 1, 1, 1),
+             ("late-same", 3, 3, 2, 1, 1, 1)]
+FAM_THOROUGH = FAM_QUICK + [("late-same", 3, 3, 2, 2, 1, 2),(3, 3, 2, 2, 1, 1), (4, 3, 2, 1, 2, 1),
                             (3, 3, 2, 1, 2, 2), (3, 4, 2, 1, 1, 1),
                             (4, 3, 3, 1, 2, 2), ("late", 2, 3, 2, 1, 2, 2),
                             ("late", 3, 3, 2, 1, 1, 1)]
